@@ -244,6 +244,38 @@ func definiteStores(p *core.Program, nt *types.Named, writes map[*types.Var][]wr
 	f := p.LookupFunc(core.Rel(nt.Obj().Pkg()), nt.Obj().Name()+"."+fname)
 	if d := p.FuncDecl(f); d != nil && d.Body != nil {
 		info := p.Pkgs[core.Rel(nt.Obj().Pkg())].TypesInfo
+		// a top-level if/else whose both branches store the field
+		for _, s := range d.Body.List {
+			ifs, ok := s.(*ast.IfStmt)
+			if !ok || ifs.Else == nil {
+				continue
+			}
+			eb, ok := ifs.Else.(*ast.BlockStmt)
+			if !ok {
+				continue
+			}
+			stores := func(list []ast.Stmt) map[*types.Var]bool {
+				m := map[*types.Var]bool{}
+				for _, t := range list {
+					if as, ok := t.(*ast.AssignStmt); ok {
+						for _, l := range as.Lhs {
+							if fld := rootField(info, l, nt); fld != nil {
+								m[fld] = true
+							}
+						}
+					}
+				}
+				return m
+			}
+			a, b := stores(ifs.Body.List), stores(eb.List)
+			for fld := range a {
+				if b[fld] {
+					if _, ok := out[fld]; !ok {
+						out[fld] = "stored on both branches"
+					}
+				}
+			}
+		}
 		for _, s := range d.Body.List {
 			es, ok := s.(*ast.ExprStmt)
 			if !ok {
@@ -288,6 +320,16 @@ func checkResetSpec(r *core.Run, p *core.Program, rule string, spec resetSpec) {
 		}
 	}
 	initNames := map[string]bool{"Init": true, "New" + spec.typ: true}
+	for fld, ws := range writes {
+		for _, w := range ws {
+			if matchName(w.f.Decl.Name.Name, spec.resets) && recvNamed(w.f.Obj) != nil && recvNamed(w.f.Obj).Obj() == nt.Obj() && !w.top {
+				if _, ok := reset[fld]; !ok {
+					r.Fail(rule, fmt.Sprintf("%s.%s.%s|reset on some paths only", spec.rel, spec.typ, fld.Name()), w.pos,
+						fmt.Sprintf("%s stores field %s only under the condition `%s`: on the other paths the value of the previous document survives", w.f.Decl.Name.Name, fld.Name(), w.cond))
+				}
+			}
+		}
+	}
 	n := 0
 	for i := 0; i < st.NumFields(); i++ {
 		fld := st.Field(i)
